@@ -414,3 +414,10 @@ def c10_7(ctx, r):
                     "rewrites job_status.json and its version file and only then gets ConfigVersionMismatch", "the write is rejected with a version-mismatch error and the files on disk are unchanged")
     if n_fn < 2:
         raise AnalysisError("C10.7", f"only {n_fn} Cluster methods write both state files (expected _update_job_status and _prepare_for_resubmission)")
+
+
+@rule(P, "C10.8", "T5", "only a promoted handle reaches a mutating call (no write after the role was given up)", min_obligations=6)
+def c10_8(ctx, r):
+    from .c01 import c01_1
+
+    c01_1(ctx, r)
